@@ -3,8 +3,17 @@
 Leg B: the real `scan` of /repo (one rotation, score-map analyzer with the threshold far below the data) is
 compared with (a) the Lean *implementation model* (stored-frame template, circular convolution on the fast
 shape, roll/crop frame — `c01.int`/`c01.float` what=impl), (b) the Lean *spec* (windowed sums, natural frame —
-what=spec) and (c) independent numpy textbook definitions (Pearson under the mask)."""
+what=spec) and (c) independent numpy textbook definitions (Pearson under the mask).
+
+Streams of run(): main (all scores x 2-D/3-D x padding, every way of handing the arrays over, intensity scales and
+offsets), shape profiles (non-fast FFT extents, long template axes), several rotations in one search observed one by
+one through a user-supplied callback_class, consecutive searches on one shape with other contents (a failing case
+carries its history in "before", so that its replay is self-contained), two-search sessions in reused worker processes.
+A valid search that raises is a failure of the property with that input (key <score>:search-raises)."""
+import contextlib
+import io
 import itertools
+import os
 
 import numpy as np
 
@@ -16,7 +25,13 @@ RULE = ("integer-valued targets/templates in [-4,4] (FFT products exact after ro
         "combination of extents, masks full / binary / soft dyadic, all 4 / 24 grid rotations valid for the template "
         "shape, pad_fourier on/off, interpolation order 1/3, float32/float64 backends, all 7 scores. "
         "distinct = distinct (score, shapes, rotation, pad, order, precision, mask kind) tuples; identity-rotation "
-        "cases on 1-voxel templates are trivial and not generated")
+        "cases on 1-voxel templates are trivial and not generated. Also varied: how the arrays are handed over (C / Fortran / "
+        "reversed / strided / offset / axis-permuted views, read-only, numpy.memmap, tme Density; float16/32/64 and int8..64 "
+        "buffers), default mask / default rotation / default pad and order left out, rank-2 and float64 rotation matrices, "
+        "masks and rotations assigned after construction, target and template intensity scales and offsets (powers of two "
+        "for CC/LCC), target extents whose FFT length is not fast (17, 19, 23, 31, 37, 46), template extents 5/7/9, centred masks and "
+        "templates with an empty margin, several rotations in one search observed per rotation through a user-supplied "
+        "callback, consecutive searches on one shape with other contents")
 ASSUMPTIONS = ["pyFFTW: irfftn(rfftn(a)*rfftn(b)) is the circular convolution on the fast shape (modelled by Pm.C01.circ)",
                "voxels whose exact denominator vanishes (constant window under the mask) or that sit on an MCC threshold "
                "tie are excluded from the numeric comparison and counted (guard-tie voxels)",
@@ -28,9 +43,100 @@ TRUSTED = ["C01: DFT convolution theorem / pyFFTW; IEEE rounding (tolerances 2e-
 
 TOL = {False: 2e-3, True: 1e-7}
 
+# how an array can be handed to MatchingData (all of them hold the same values)
+LAYOUTS = ["c", "f", "rev", "strided", "offset", "perm", "readonly", "memmap", "density"]
+FLOAT_DTYPES = ["float64", "float32"]
+EXACT_DTYPES = ["float16", "int8", "int16", "int32", "int64"]      # only for integral values of small magnitude
+_files = []
+
+
+def _present(a, layout, dtype):
+    """the values of `a` (float64) as an object of the given dtype and memory layout"""
+    a = np.asarray(a, dtype=np.float64).astype(dtype)
+    nd = a.ndim
+    if layout == "f":
+        out = np.asfortranarray(a)
+    elif layout == "rev":          # negative strides
+        r = (slice(None, None, -1),) * nd
+        out = np.ascontiguousarray(a[r])[r]
+    elif layout == "strided":      # every second element of a larger buffer
+        big = np.full([2 * x for x in a.shape], 77, dtype=dtype)
+        sl = (slice(None, None, 2),) * nd
+        big[sl] = a
+        out = big[sl]
+    elif layout == "offset":       # interior of a larger buffer
+        big = np.full([x + 3 for x in a.shape], -55, dtype=dtype)
+        sl = tuple(slice(1, 1 + x) for x in a.shape)
+        big[sl] = a
+        out = big[sl]
+    elif layout == "perm":         # axes stored in another order
+        ax = tuple(np.roll(np.arange(nd), 1))
+        inv = tuple(np.argsort(ax))
+        out = np.ascontiguousarray(a.transpose(ax)).transpose(inv)
+    elif layout == "readonly":
+        out = a.copy()
+        out.setflags(write=False)
+    elif layout == "memmap":
+        from .. import env
+        path = os.path.join(env.scratch(), "c01_%d_%d.bin" % (os.getpid(), len(_files)))
+        _files.append(path)
+        mm = np.memmap(path, dtype=dtype, mode="w+", shape=a.shape)
+        mm[...] = a
+        mm.flush()
+        del mm
+        out = np.memmap(path, dtype=dtype, mode="r", shape=a.shape)
+    elif layout == "density":
+        from tme.density import Density
+        out = Density(a.copy())
+    else:
+        out = np.ascontiguousarray(a)
+    chk = out.data if layout == "density" else out
+    assert chk.shape == a.shape and np.array_equal(np.asarray(chk), a)
+    return out
+
+
+def _cleanup_files():
+    while _files:
+        try:
+            os.remove(_files.pop())
+        except OSError:
+            pass
+
+
+class _PerRotation:
+    """user-supplied callback_class: keeps a copy of every per-rotation score array it is handed and brings it into the
+    target's frame the way the score-map analyzer does (roll by fourier_shift, the library's own crop)"""
+    shared = False
+
+    def __init__(self, **kwargs):
+        self.raw = []
+        self.out = []
+
+    def __call__(self, scores, rotation_matrix, **kwargs):
+        self.raw.append((np.array(rotation_matrix, dtype=np.float64), np.array(scores)))
+
+    def _postprocess(self, targetshape, templateshape, convolution_shape, fourier_shift=None, convolution_mode=None, **kwargs):
+        from tme.matching_utils import apply_convolution_mode
+        self.out = []
+        for R, sc in self.raw:
+            if fourier_shift is not None:
+                sc = np.roll(sc, shift=tuple(int(x) for x in fourier_shift), axis=tuple(range(sc.ndim)))
+            if convolution_mode is not None:
+                sc = apply_convolution_mode(sc, convolution_mode=convolution_mode, s1=targetshape, s2=templateshape,
+                                            convolution_shape=convolution_shape)
+            self.out.append((R, np.array(sc, dtype=np.float64)))
+        return self
+
+    def __iter__(self):
+        yield self.out
+
+    @classmethod
+    def merge(cls, callbacks, **kwargs):
+        return callbacks
+
 
 def _mask(rng, shape, kind):
-    if kind == "full":
+    if kind in ("full", "none"):
         return np.ones(shape)
     if kind == "binary":
         for _ in range(20):
@@ -38,6 +144,17 @@ def _mask(rng, shape, kind):
             if m.sum() >= 3:
                 return m
         return np.ones(shape)
+    if kind == "centred":
+        # ones in a centred ellipsoid, zero margin where the extent allows one (the usual way masks are made);
+        # invariant under every grid rotation that is valid for the shape
+        g = np.indices(shape).astype(float)
+        q = np.zeros(shape)
+        for ax, mm in enumerate(shape):
+            c = (mm - 1) / 2
+            r = max(c - (1 if mm >= 4 else 0), 0.5)
+            q += ((g[ax] - c) / r) ** 2
+        m = (q <= 1.0 + 1e-9).astype(float)
+        return m if m.sum() >= 3 else np.ones(shape)
     m = rng.choice([0.0, 0.25, 0.5, 1.0, 1.0], size=shape)
     if m.sum() < 2 or (m > 0).sum() < 3:
         m[...] = 1.0
@@ -65,7 +182,31 @@ def _mcc_numpy(target, tmask, gR, wR, ratio, pad, Ns, eps):
     return num, den, ov
 
 
-def _case(ctx, d, rng, nd, score, pad, double, order, mask_kind, quick):
+def _shapes(rng, nd, score, quick, profile):
+    """(ns, ms).  profile 'std': small boxes of every parity; 'nonfast': one target extent whose FFT length is not a
+    fast one (17 ... 46: conv shape != fast shape also without Fourier padding); 'long': one template extent 5 / 7 / 9"""
+    mcc = score == "MCC"     # the model evaluates the two map-global maxima over the whole torus: O(N^2)
+    if profile == "nonfast" and not (mcc and nd == 3):
+        ax = int(rng.integers(0, nd))
+        hi_m = 3 if (nd == 3 or mcc) else 5
+        ms = [int(x) for x in rng.integers(1, hi_m + 1, size=nd)]
+        if max(ms) == 1:
+            ms[ax] = 2
+        if nd == 3 and rng.random() < 0.5:
+            ms = [ms[0]] * 3 if ms[0] > 1 else [2, 2, 2]
+        hi_n = {2: 8, 3: 3}[nd] if not mcc else 4
+        ns = [int(rng.integers(m, max(m + 1, hi_n + 1))) for m in ms]
+        # next fast lengths: 17->18, 19->20, 23->24, 31->32, 37->39, 46->48 (with padding the conv extent n+m-1 moves along)
+        ns[ax] = int(rng.choice([17, 19, 23, 31, 37, 46] if (nd == 2 and not mcc) else [17, 19, 23, 37]))
+        return ns, ms
+    if profile == "long" and not (mcc and nd == 3):
+        ax = int(rng.integers(0, nd))
+        ms = [int(x) for x in rng.integers(1, (3 if nd == 2 else 2) + 1, size=nd)]
+        ms[ax] = int(rng.choice([5, 7, 9] if not mcc else [5, 7]))
+        ns = [int(rng.integers(m, m + (7 if nd == 2 else 4))) for m in ms]
+        if mcc:
+            ns = [min(n, 9) for n in ns]
+        return ns, ms
     hi_t = {2: 6, 3: 4}[nd] if quick else {2: 7, 3: 5}[nd]
     cubic = rng.random() < 0.6
     if cubic:
@@ -75,7 +216,7 @@ def _case(ctx, d, rng, nd, score, pad, double, order, mask_kind, quick):
         if max(ms) == 1:
             ms[0] = 2
     hi_n = {2: 12, 3: 7}[nd] if quick else {2: 16, 3: 9}[nd]
-    if score == "MCC":   # the model evaluates the two map-global maxima over the whole torus: O(N^2d)
+    if mcc:
         hi_n = {2: 9, 3: 5}[nd] if quick else {2: 11, 3: 6}[nd]
         ms = [min(m, 3 if nd == 3 else 4) for m in ms]
     ns = [int(rng.integers(m, max(m + 1, hi_n + 1))) for m in ms]
@@ -84,14 +225,24 @@ def _case(ctx, d, rng, nd, score, pad, double, order, mask_kind, quick):
         ax = int(rng.integers(0, nd))
         if ms[ax] > 1:
             ns[ax] = int(rng.integers(1, ms[ax]))
+    return ns, ms
+
+
+def _case(ctx, d, rng, nd, score, pad, double, order, mask_kind, quick, profile="std", shapes=None):
+    ns, ms = _shapes(rng, nd, score, quick, profile) if shapes is None else (list(shapes[0]), list(shapes[1]))
     rots = [r for r in S.grid_rotations(nd) if S.rot_ok_for_shape(r[0], ms)]
     perm, flip, R = rots[int(rng.integers(0, len(rots)))]
     target = rng.integers(-4, 5, size=ns)
     if rng.random() < 0.15:  # sparse targets: many constant windows (guard branch)
         target = target * (rng.random(ns) < 0.3)
     template = rng.integers(-4, 5, size=ms)
+    if min(ms) >= 3 and rng.random() < 0.15:
+        # template with an empty margin (a particle in a box)
+        inner = np.zeros(ms, bool)
+        inner[tuple(slice(1, m - 1) for m in ms)] = True
+        template = template * inner
     if template.std() == 0:
-        template.flat[0] += 1
+        template.flat[int(np.prod(ms)) // 2] += 1
     wm = _mask(rng, ms, mask_kind)
     if score in ("CORR", "CAM", "FLC", "FLCSphericalMask", "MCC"):
         if ((template * wm).std() == 0) or (template[wm > 0].std() == 0):
@@ -111,21 +262,208 @@ def _case(ctx, d, rng, nd, score, pad, double, order, mask_kind, quick):
     return inp, sig
 
 
-def _evaluate(ctx, d, inp, record=True):
+def _onepass_ok(values, weights, double):
+    """The code standardises templates with the one-pass formula E[g^2] - E[g]^2 in the backend's precision u; its relative
+    error is bounded by (number of voxels) * u * E[g^2] / var.  Offsets are only used when that bound is below TOL / 10."""
+    u = 2.0 ** -53 if double else 2.0 ** -24
+    n = float(weights.sum())
+    if n <= 0:
+        return False
+    e2 = float((values * values * weights).sum()) / n
+    var = e2 - (float((values * weights).sum()) / n) ** 2
+    return var > 0 and values.size * u * e2 / var <= 0.1 * TOL[double]
+
+
+def _intensities(rng, inp):
+    """absolute scale / offset of target and template: the normalised scores do not depend on them (positive scale, any
+    offset of the template; positive scale of the target), CC / LCC are bilinear (powers of two: exact)"""
+    score, double = inp["score"], inp["double"]
+    ms = inp["ms"]
+    ig = np.array(inp["template"], dtype=np.float64).reshape(ms)
+    wm = np.array(inp["mask"], dtype=np.float64).reshape(ms)
+    r = rng.random()
+    if score in ("CC", "LCC"):
+        if r < 0.25:
+            inp["tscale"] = float(rng.choice([2.0 ** -20, 2.0 ** -3, 2.0 ** 10]))
+        if rng.random() < 0.25:
+            inp["gscale"] = float(rng.choice([2.0 ** -12, 2.0 ** 7]))
+        if rng.random() < 0.2:
+            inp["toffset"] = float(rng.choice([-7, 13] if not double else [-7, 13, 1000]))
+        if rng.random() < 0.2:
+            inp["goffset"] = float(rng.choice([-6, 9] if not double else [-6, 9, 300]))
+        return
+    if r < 0.35:
+        # small / large absolute intensities (far above the code's eps guards relative to the data, so the value is unchanged)
+        inp["tscale"] = float(rng.choice([1e-9, 1e-6, 1e3] if double else [1e-5, 1e-4, 1e3]))
+    if double and rng.random() < 0.2:
+        inp["toffset"] = float(rng.choice([100, -30]))     # float32 cannot resolve the windows' variance far from zero mean
+    if rng.random() < 0.3:
+        inp["gscale"] = float(rng.choice([1e-6, 1e-3, 1e3] if double else [1e-4, 1e-2, 1e3]))
+    if rng.random() < 0.3:
+        off = float(rng.choice([100, -1000, 37] if double else [5, -7, 20]))
+        vals = ig + off
+        ok = _onepass_ok(vals, wm, double) and _onepass_ok(vals, wm * wm, double)
+        if score == "CAM":
+            ok = ok and _onepass_ok(vals, np.ones(ms), double)
+        if ok:
+            inp["goffset"] = off
+
+
+def _api(rng, inp):
+    """how the search is called: memory layout / dtype of the buffers, arguments left at their defaults, rotation matrices
+    as rank-2 / float64 arrays, masks and rotations assigned after construction"""
+    score = inp["score"]
+    nd = len(inp["ns"])
+    api = {}
+    names = ["target", "template", "mask"] + (["tmask"] if score == "MCC" else [])
+    if rng.random() < 0.55:
+        api["layout"] = {k: str(rng.choice(LAYOUTS)) for k in names}
+    integral = all(float(inp.get(k, 1.0)) == 1.0 for k in ("tscale", "gscale")) and \
+        abs(float(inp.get("toffset", 0.0))) <= 100 and abs(float(inp.get("goffset", 0.0))) <= 100
+    if rng.random() < 0.45:
+        pool = FLOAT_DTYPES + (EXACT_DTYPES if integral else [])
+        mask = np.array(inp["mask"])
+        mpool = FLOAT_DTYPES + ["float16"] + (["int8", "int32", "int64"] if bool(np.all((mask == 0) | (mask == 1))) else [])
+        api["dtype"] = {"target": str(rng.choice(pool)), "template": str(rng.choice(pool)), "mask": str(rng.choice(mpool)),
+                        "tmask": str(rng.choice(FLOAT_DTYPES + ["float16", "int8", "int64"]))}
+    if bool(np.all(np.array(inp["mask"]) == 1)) and (inp["mask_kind"] == "none" or rng.random() < 0.3):
+        api["mask_none"] = True
+    identity = inp["perm"] == list(range(nd)) and not any(inp["flip"])
+    r = rng.random()
+    api["rot_form"] = "none" if (identity and r < 0.5) else ("rank2" if r < 0.3 else ("f64" if r < 0.55 else "rank3"))
+    if rng.random() < 0.3:
+        api["omit_defaults"] = True
+    if rng.random() < 0.25:
+        api["set_after"] = True
+    return api
+
+
+def _buffer_dtype(arr, want, backend_dtype, layout):
+    """dtype of the buffer handed over: the wanted one when it holds the values exactly (or is the backend's own / wider:
+    the library converts to the backend's precision anyway); a Density is not converted by the library, so it carries
+    float32 / float64 data only"""
+    if want not in (backend_dtype, "float64"):
+        small = bool(np.all(np.abs(arr) <= 120)) if want.startswith("int") else True
+        with np.errstate(all="ignore"):
+            exact = small and bool(np.array_equal(arr.astype(want).astype(np.float64), arr))
+        if not exact:
+            want = backend_dtype
+    if layout == "density" and want not in ("float32", "float64"):
+        want = backend_dtype
+    return want
+
+
+def _run_real(inp, arrays, Rs, double):
+    """the real search of /repo in this process.  Returns (list of score maps, one per rotation | [aggregated map]), fp"""
+    from tme.matching_data import MatchingData
+    from tme.matching_exhaustive import scan, MATCHING_EXHAUSTIVE_REGISTER
+    from tme.analyzer import MaxScoreOverRotations
+    score, pad, order = inp["score"], inp["pad"], inp["order"]
+    api = inp.get("api") or {}
+    backend_dtype = "float64" if double else "float32"
+    lay = api.get("layout") or {}
+    dts = api.get("dtype") or {}
+    handed = {}
+    for name, arr in arrays.items():
+        if arr is None:
+            handed[name] = None
+            continue
+        handed[name] = _present(arr, lay.get(name, "c"), _buffer_dtype(arr, dts.get(name, backend_dtype), backend_dtype, lay.get(name, "c")))
+    if api.get("mask_none") and bool(np.all(arrays["mask"] == 1)):
+        handed["mask"] = None
+    form = api.get("rot_form", "rank3")
+    ident = bool(np.array_equal(Rs[0], np.eye(Rs.shape[1])))
+    if form == "none" and len(Rs) == 1 and ident:
+        rot = None
+    elif form == "rank2" and len(Rs) == 1:
+        rot = np.array(Rs[0], dtype=np.float32)
+    elif form == "f64":
+        rot = np.array(Rs, dtype=np.float64)
+    else:
+        rot = np.array(Rs, dtype=np.float32)
+    kw = {"pad_fourier": pad, "interpolation_order": order}
+    if api.get("omit_defaults"):
+        # an argument that equals the documented default of `scan` is left out
+        import inspect
+        dflt = {k: v.default for k, v in inspect.signature(scan).parameters.items()}
+        kw = {k: v for k, v in kw.items() if not (k in dflt and dflt[k] == v)}
+    per_rotation = api.get("callback") == "per-rotation"
+    try:
+        with contextlib.redirect_stdout(io.StringIO()):
+            if api.get("set_after"):
+                md = MatchingData(target=handed["target"], template=handed["template"])
+                if handed["mask"] is not None:
+                    md.template_mask = handed["mask"]
+                if handed["tmask"] is not None:
+                    md.target_mask = handed["tmask"]
+                md.rotations = rot
+            else:
+                md = MatchingData(target=handed["target"], template=handed["template"], template_mask=handed["mask"],
+                                  target_mask=handed["tmask"], rotations=rot)
+            setup, scoring = MATCHING_EXHAUSTIVE_REGISTER[score]
+            fp = md.fourier_padding(pad_fourier=pad)
+            if per_rotation:
+                res = scan(md, setup, scoring, n_jobs=1, callback_class=_PerRotation, callback_class_args={}, **kw)
+            else:
+                res = scan(md, setup, scoring, n_jobs=int(api.get("n_jobs", 1)), callback_class=MaxScoreOverRotations,
+                           callback_class_args={"score_threshold": -1e30}, **kw)
+    finally:
+        handed.clear()
+        _cleanup_files()
+    fp = tuple(tuple(int(x) for x in p) for p in fp)
+    if per_rotation:
+        got = res[0][0]
+        return [np.asarray(m, dtype=np.float64) for _, m in got], fp, [np.asarray(R, dtype=np.float64) for R, _ in got]
+    return [np.asarray(res[0], dtype=np.float64)], fp, None
+
+
+def _rot_of(nd, perm, flip):
+    return [r for r in S.grid_rotations(nd) if r[0] == list(perm) and r[1] == list(flip)][0][2]
+
+
+def _replay_history(inp):
+    """searches that ran in this process before the case (same shapes, other contents): executed again, not judged"""
+    for b in inp.get("before") or []:
+        ns, ms, nd = b["ns"], b["ms"], len(b["ns"])
+        arrays = {"target": (np.array(b["target"], dtype=np.float64).reshape(ns) + float(b.get("toffset", 0.0))) * float(b.get("tscale", 1.0)),
+                  "template": (np.array(b["template"], dtype=np.float64).reshape(ms) + float(b.get("goffset", 0.0))) * float(b.get("gscale", 1.0)),
+                  "mask": np.array(b["mask"], dtype=np.float64).reshape(ms),
+                  "tmask": None if b["targetMask"] is None else np.array(b["targetMask"], dtype=np.float64).reshape(ns)}
+        S.set_precision(b["double"])
+        try:
+            _run_real(b, arrays, np.stack([_rot_of(nd, b["perm"], b["flip"])]), b["double"])
+        except Exception:  # noqa: judged when it was the case itself
+            pass
+        finally:
+            S.set_precision(False)
+
+
+def _evaluate(ctx, d, inp, record=True, history=True):
     """Runs one case on the real code, the Lean impl-model and the specs. Returns True when all clauses hold."""
+    if history:
+        _replay_history(inp)
     score, ns, ms, pad, double, order = inp["score"], inp["ns"], inp["ms"], inp["pad"], inp["double"], inp["order"]
-    perm, flip = inp["perm"], inp["flip"]
     nd = len(ns)
-    target = np.array(inp["target"], dtype=np.float64).reshape(ns)
-    template = np.array(inp["template"], dtype=np.float64).reshape(ms)
+    api = inp.get("api") or {}
+    itarget = np.array(inp["target"], dtype=np.float64).reshape(ns)
+    itemplate = np.array(inp["template"], dtype=np.float64).reshape(ms)
     wm = np.array(inp["mask"], dtype=np.float64).reshape(ms)
     tmask = None if inp["targetMask"] is None else np.array(inp["targetMask"], dtype=np.float64).reshape(ns)
-    R = [r for r in S.grid_rotations(nd) if r[0] == perm and r[1] == flip][0][2]
-    # intensity scale of the target (the normalised scores must not care; the guards of the code are absolute thresholds)
-    tscale = float(inp.get("tscale", 1.0))
-    itarget = target                      # unscaled: decides which windows are exactly constant
-    target = target * tscale + float(inp.get("toffset", 0.0))
-    ttb = itarget + float(inp.get("toffset", 0.0))      # for the (scale-invariant) textbook oracles: offset kept, scale dropped
+    # intensity scale / offset (the normalised scores must not care; the guards of the code are absolute thresholds)
+    tscale, toffset = float(inp.get("tscale", 1.0)), float(inp.get("toffset", 0.0))
+    gscale, goffset = float(inp.get("gscale", 1.0)), float(inp.get("goffset", 0.0))
+    ttb = itarget + toffset              # for the exact / scale-invariant oracles: offset kept, scale dropped
+    gtb = itemplate + goffset
+    target = ttb * tscale
+    template = gtb * gscale
+    # rotations scored in this search: the case's own one, possibly among others (observed one by one)
+    rot_pf = [(list(inp["perm"]), list(inp["flip"]))]
+    if api.get("callback") == "per-rotation":
+        extra = [(list(p), list(f)) for p, f in inp.get("rots", [])]
+        pos = min(int(inp.get("rot_pos", 0)), len(extra))
+        rot_pf = extra[:pos] + rot_pf + extra[pos:]
+    Rs = np.stack([_rot_of(nd, p, f) for p, f in rot_pf])
+    small = {k: v for k, v in inp.items() if k not in ("target", "template", "mask", "targetMask", "prelude", "before")}
     S.set_precision(double)
     try:
         dtype = np.float64 if double else np.float32
@@ -134,46 +472,78 @@ def _evaluate(ctx, d, inp, record=True):
             pre = np.array(inp["prelude"], dtype=np.float64).reshape(ms)
             allr = np.stack([r[2] for r in S.grid_rotations(nd) if S.rot_ok_for_shape(r[0], ms)][:4])
             S.run_scan(score, target, pre, mask=wm, target_mask=tmask, rotations=allr, pad=pad, order=order, dtype=dtype, n_jobs=2)
-            res, fp = S.run_scan(score, target, template, mask=wm, target_mask=tmask, rotations=np.stack([R, R]), pad=pad, order=order,
-                                 dtype=dtype, n_jobs=2)
+            res, fp = S.run_scan(score, target, template, mask=wm, target_mask=tmask, rotations=np.stack([Rs[0], Rs[0]]), pad=pad,
+                                 order=order, dtype=dtype, n_jobs=int(inp.get("n_jobs", 2)))
+            maps, seen = [np.asarray(res[0], dtype=np.float64)], None
         else:
-            res, fp = S.run_scan(score, target, template, mask=wm, target_mask=tmask, rotations=R[None], pad=pad, order=order, dtype=dtype)
+            maps, fp, seen = _run_real(inp, {"target": target, "template": template, "mask": wm, "tmask": tmask}, Rs, double)
+    except Exception as e:  # noqa: a valid search that raises is a failure of the property's "reports a value", with this input
+        ctx.spec(f"{score}: the search returns a score map for valid arrays", inp, False,
+                 {"exception": type(e).__name__, "message": str(e)[:300], "api": api}, key=f"{score}:search-raises")
+        return False
     finally:
         S.set_precision(False)
-    sc = np.asarray(res[0], dtype=np.float64)
     conv, fast, ft, shift = fp
-    small = {k: v for k, v in inp.items() if k not in ("target", "template", "mask", "targetMask")}
     ok_all = True
     # ---- shapes / shift bookkeeping vs the model
     m = d.call("c01.shapes", ns=ns, ms=ms, pad=pad)
     ok_all &= ctx.agree("fourier_padding (conv shape, shift)", small, {"conv": list(conv), "shift": list(shift)},
                         {"conv": m["conv"], "shift": m["shift"]})
+    if seen is not None:
+        same = len(seen) == len(Rs) and all(np.array_equal(a, b) for a, b in zip(seen, Rs))
+        ok_all &= ctx.spec(f"{score}: the callback is handed one score array per rotation, in order, with its rotation matrix",
+                           inp, bool(same), {"rotations-seen": len(seen), "asked": len(Rs)}, key=f"{score}:callback-rotations")
+        if not same:
+            return False
+    if api.get("callback") == "per-rotation":
+        ctx.count("rotations-observed-one-by-one", len(maps))
+    for k, ((perm, flip), sc) in enumerate(zip(rot_pf, maps)):
+        ok_all &= _compare(ctx, d, inp, small, perm, flip, sc, fast, dict(
+            itarget=itarget, ttb=ttb, gtb=gtb, target=target, template=template, wm=wm, tmask=tmask, k=k, nrot=len(maps)))
+    return ok_all
+
+
+def _compare(ctx, d, inp, small, perm, flip, sc, fast, a):
+    """one score map (of the rotation perm/flip) against the Lean implementation model, the Lean spec and the textbooks"""
+    score, ns, ms, pad, double, order = inp["score"], inp["ns"], inp["ms"], inp["pad"], inp["double"], inp["order"]
+    nd = len(ns)
+    ttb, gtb, target, template, wm, tmask = a["ttb"], a["gtb"], a["target"], a["template"], a["wm"], a["tmask"]
+    tscale, gscale = float(inp.get("tscale", 1.0)), float(inp.get("gscale", 1.0))
+    ok_all = True
+    which = {"rotation": [perm, flip], "index": a["k"], "of": a["nrot"]}
     ok_all &= ctx.agree("score map shape", small, list(sc.shape), ns)
     if list(sc.shape) != ns:
+        ctx.spec(f"{score}: the score map has the target's shape", inp, False, {"shape": list(sc.shape), **which}, key=f"{score}:shape")
         return False
     eps = float(np.finfo(np.float64 if double else np.float32).eps)
     args = dict(score=score, pad=pad, mode="same", ns=ns, ms=ms, Ns=list(fast), perm=perm, flip=flip, eps=eps, ratio=0.3, order=order)
     inside = S.inside_mask(ns, ms) if not pad else np.ones(ns, bool)
-    gR = S.rotate_grid(template, perm, flip)
+    gR = S.rotate_grid(gtb, perm, flip)
     wR = S.rotate_grid(wm, perm, flip)
     tol = TOL[double]
     if score in ("CC", "LCC"):
-        r = d.call("c01.int", target=[int(x) for x in target.reshape(-1)], template=[int(x) for x in template.reshape(-1)], **args)
+        # bilinear: the scales (powers of two) factor out exactly; the model works on the integers
+        r = d.call("c01.int", target=[int(x) for x in ttb.reshape(-1)], template=[int(x) for x in gtb.reshape(-1)], **args)
+        sc = sc / (tscale * gscale)
+        finite = bool(np.isfinite(sc).all())
+        sc = np.where(np.isfinite(sc), sc, 0.0)
         impl = np.rint(sc).astype(np.int64)
-        exact = np.max(np.abs(sc - impl)) < (0.05 if not double else 1e-6)
         mi = np.array(r["impl"], dtype=np.int64).reshape(ns)
         ms_ = np.array(r["spec"], dtype=np.int64).reshape(ns)
+        # rounding allowance: the float32 FFT carries ~1e-6 of the largest |value| of the map, float64 ~1e-14
+        mag = max(1.0, float(np.max(np.abs(mi))))
+        exact = finite and np.max(np.abs(sc - impl)) < (0.05 if not double else 1e-6) * max(1.0, mag / 1e3)
         ok_all &= ctx.agree(f"{score}: score map == Lean implementation model (whole map, incl. wrap-around voxels)", inp,
                             bool(exact and np.array_equal(impl, mi)), True)
         # independent textbook: direct windowed sum (numpy)
         if score == "CC":
-            tb = (S.windows(target, ms) * gR).sum(axis=tuple(range(nd, 2 * nd)))
+            tb = (S.windows(ttb, ms) * gR).sum(axis=tuple(range(nd, 2 * nd)))
         else:
             from scipy.ndimage import laplace
-            tb = (S.windows(laplace(target, mode="wrap"), ms) * laplace(gR, mode="wrap")).sum(axis=tuple(range(nd, 2 * nd)))
+            tb = (S.windows(laplace(ttb, mode="wrap"), ms) * laplace(gR, mode="wrap")).sum(axis=tuple(range(nd, 2 * nd)))
         good = np.array_equal(impl[inside], ms_[inside]) and np.array_equal(impl[inside], np.rint(tb).astype(np.int64)[inside])
         ok_all &= ctx.spec(f"{score}: reported value == windowed definition centred at shape//2", inp, bool(exact and good),
-                           {"max|impl-spec|": int(np.max(np.abs(impl - ms_)[inside])) if inside.any() else 0},
+                           {"max|impl-spec|": int(np.max(np.abs(impl - ms_)[inside])) if inside.any() else 0, "finite": finite, **which},
                            key=f"{score}:definition")
         ctx.count(f"voxels-compared", int(inside.sum()))
         return ok_all
@@ -204,11 +574,11 @@ def _evaluate(ctx, d, inp, record=True):
         wm_eff, wR_eff = wm, wR
     # ---- guard-tie voxels: exact denominator vanishes / threshold ties
     if score in ("FLC",):
-        stable = S.window_var(itarget, wR_eff) > 1e-9
+        stable = S.window_var(ttb, wR_eff) > 1e-9
     elif score in ("FLCSphericalMask", "CORR", "CAM"):
-        stable = S.window_var(itarget, wm) > 1e-9
+        stable = S.window_var(ttb, wm) > 1e-9
     else:
-        num, den, ov = _mcc_numpy(target, tmask, gR, wR_eff, 0.3, pad, fast, eps)
+        num, den, ov = _mcc_numpy(ttb, tmask, gR, wR_eff, 0.3, pad, fast, eps)
         stable = (den > 1e-6 * max(den.max(), 1e-30))
         # threshold tie on the overlap ratio: exact integer overlaps, compare against every candidate maximum
         maxov_candidates = np.unique(np.round(ov[ov > 0.01], 6)) if (ov > 0.01).any() else np.array([0.0])
@@ -218,46 +588,48 @@ def _evaluate(ctx, d, inp, record=True):
     finite = np.isfinite(sc).all()
     cmp_mask = stable & np.isfinite(mi) & np.isfinite(msp)
     whole = cmp_mask            # impl-model mirrors the whole map (also the wrap-around region without padding)
-    dm = float(np.max(np.abs(sc - mi)[whole])) if whole.any() else 0.0
+    with np.errstate(all="ignore"):
+        dm = float(np.nanmax(np.abs(sc - mi)[whole])) if whole.any() else 0.0
     ok_all &= ctx.agree(f"{score}: score map == Lean implementation model", inp, bool(dm <= tol), True)
     part = cmp_mask & inside
-    ds = float(np.max(np.abs(sc - msp)[part])) if part.any() else 0.0
+
+    def dev(ref, where):
+        if not where.any():
+            return 0.0
+        x = np.abs(sc - ref)[where]
+        return float("inf") if not np.isfinite(x).all() else float(np.max(x))
+    ds = dev(msp, part)
     good = ds <= tol and finite
-    detail = {"max|impl-LeanSpec|": ds, "finite": bool(finite)}
+    detail = {"max|impl-LeanSpec|": ds, "finite": bool(finite), **which}
     # textbook Pearson (independent of the Lean formulas) where it applies
     binary = bool(np.all((wm == 0) | (wm == 1))) and not smoothed
     if score in ("CORR", "CAM") and bool(np.all(wm == 1)):
         # CAM: the *standardised* target is what gets zero-extended
         tsrc = (ttb - ttb.mean()) / ttb.std() if score == "CAM" else ttb
         tb, st2 = S.pearson_textbook(tsrc, gR, np.ones(ms))
-        p2 = part & st2
-        dt = float(np.max(np.abs(sc - tb)[p2])) if p2.any() else 0.0
+        dt = dev(tb, part & st2)
         detail["max|impl-Pearson|"] = dt
         good &= dt <= tol
     if score == "FLC" and binary:
         tb, st2 = S.pearson_textbook(ttb, gR, wR)
-        p2 = part & st2
-        dt = float(np.max(np.abs(sc - tb)[p2])) if p2.any() else 0.0
+        dt = dev(tb, part & st2)
         detail["max|impl-maskedPearson|"] = dt
         good &= dt <= tol
     if score == "FLCSphericalMask" and binary:
         tb, st2 = S.pearson_textbook(ttb, gR, wm)
-        p2 = part & st2
-        dt = float(np.max(np.abs(sc - tb)[p2])) if p2.any() else 0.0
+        dt = dev(tb, part & st2)
         detail["max|impl-maskedPearson|"] = dt
         good &= dt <= tol
     if score == "MCC":
         with np.errstate(all="ignore"):
             tb = np.clip(num / np.where(den > 0, den, 1), -1, 1)
         # overlap threshold as documented: below ratio * max overlap -> 0 (max overlap from the spec map itself)
-        p2 = part & (msp != 0)
-        dt = float(np.max(np.abs(sc - tb)[p2])) if p2.any() else 0.0
+        dt = dev(tb, part & (msp != 0))
         detail["max|impl-Padfield|"] = dt
         good &= dt <= tol
     ok_all &= ctx.spec(f"{score}: reported value == the score formula on the window centred at shape//2 (natural frame, windowed sums)",
                        inp, bool(good), detail, key=f"{score}:definition")
-    pt = part & np.isfinite(mtb)
-    dtb = float(np.max(np.abs(sc - mtb)[pt])) if pt.any() else 0.0
+    dtb = dev(mtb, part & np.isfinite(mtb))
     key = f"{score}:definition"
     if smoothed:
         key = f"{score}:order3-mask-not-prefiltered"
@@ -266,11 +638,45 @@ def _evaluate(ctx, d, inp, record=True):
         key = f"{score}:soft-mask-applied-twice"
         ctx.count("soft-mask")
     ok_all &= ctx.spec(f"{score}: reported value == textbook definition with template and mask as given", inp, bool(dtb <= tol),
-                       {"max|impl-textbook|": dtb, "order": order, "mask_kind": inp["mask_kind"]}, key=key,
+                       {"max|impl-textbook|": dtb, "order": order, "mask_kind": inp["mask_kind"], **which}, key=key,
                        size=int(np.prod(ns)) * 1000 + int(np.prod(ms)))
     ctx.count("voxels-compared", int(part.sum()))
     ctx.count("voxels-guard-tie-skipped", int((~stable & inside).sum()))
     return ok_all
+
+
+def _mask_kind(rng, score):
+    mask_kind = str(rng.choice(["full", "none", "binary", "soft", "centred"])) if score not in ("CC", "LCC") else str(rng.choice(["full", "none"]))
+    if score in ("CORR", "CAM") and rng.random() < 0.5:
+        mask_kind = str(rng.choice(["full", "none"]))       # the property's default full-box mask
+    if score == "MCC" and mask_kind == "soft":
+        mask_kind = "binary"
+    return mask_kind
+
+
+def _tally(ctx, inp, nd, mask_kind):
+    api = inp.get("api") or {}
+    ctx.count("target-scale:%g" % inp.get("tscale", 1.0))
+    ctx.count("template-scale:%g" % inp.get("gscale", 1.0))
+    ctx.count("target-offset:%g" % inp.get("toffset", 0.0))
+    ctx.count("template-offset:%g" % inp.get("goffset", 0.0))
+    ctx.count(f"score:{inp['score']}")
+    ctx.count(f"ndim:{nd}")
+    ctx.count("pad:" + ("on" if inp["pad"] else "off"))
+    ctx.count("precision:" + ("f64" if inp["double"] else "f32"))
+    ctx.count("parity:" + "".join("e" if x % 2 == 0 else "o" for x in inp["ms"]) + "/" + "".join("e" if x % 2 == 0 else "o" for x in inp["ns"]))
+    ctx.count("rotation:" + ("identity" if inp["perm"] == list(range(nd)) and not any(inp["flip"]) else "grid"))
+    ctx.count("template:" + ("larger-than-target" if any(m > n for m, n in zip(inp["ms"], inp["ns"])) else "fits"))
+    ctx.count("mask:" + mask_kind)
+    for name, lay in (api.get("layout") or {}).items():
+        ctx.count(f"layout:{lay}")
+    for name, dt in (api.get("dtype") or {}).items():
+        if name != "tmask" or inp["score"] == "MCC":
+            ctx.count(f"buffer-dtype:{dt}")
+    ctx.count("rotations-given-as:" + api.get("rot_form", "rank3"))
+    for flag in ("mask_none", "omit_defaults", "set_after"):
+        if api.get(flag):
+            ctx.count("api:" + flag)
 
 
 def run(ctx):
@@ -280,41 +686,78 @@ def run(ctx):
     # corpus first
     import glob
     import json
-    import os
     from .. import env
     for f in sorted(glob.glob(os.path.join(env.VERIF, "corpus", "C01_*.json"))):
         _evaluate(ctx, d, json.load(open(f))["input"])
         ctx.count("corpus")
-    n = ctx.budget(126, 1800)
     combos = list(itertools.product(S.SCORES, (2, 3), (True, False)))
-    for i in range(n):
-        score, nd, pad = combos[i % len(combos)]
+
+    def draw(rng, i, profile="std", fastest="pad"):
+        if fastest == "score":      # short streams: every score first
+            score, nd, pad = S.SCORES[i % 7], (2, 3)[(i // 7 + i) % 2], bool((i // 14 + i // 7 + i) % 2 == 0)
+        else:
+            score, nd, pad = combos[i % len(combos)]
         double = bool(rng.random() < 0.35)
         order = int(rng.choice([1, 3]))
-        mask_kind = str(rng.choice(["full", "binary", "soft"])) if score not in ("CC", "LCC") else "full"
-        if score in ("CORR", "CAM") and rng.random() < 0.6:
-            mask_kind = "full"       # the property's default full-box mask
-        if score == "MCC" and mask_kind == "soft":
-            mask_kind = "binary"
-        inp, sig = _case(ctx, d, rng, nd, score, pad, double, order, mask_kind, quick)
-        if score in ("FLC", "FLCSphericalMask", "CORR", "CAM") and rng.random() < 0.35:
-            # small / large absolute intensities (far above the code's eps guards relative to the data, so the value is unchanged)
-            inp["tscale"] = float(rng.choice([1e-9, 1e-6, 1e3] if double else [1e-5, 1e-4, 1e3]))
-            sig = sig + (inp["tscale"],)
+        mask_kind = _mask_kind(rng, score)
+        inp, sig = _case(ctx, d, rng, nd, score, pad, double, order, mask_kind, quick, profile)
+        _intensities(rng, inp)
+        inp["api"] = _api(rng, inp)
+        sig = sig + tuple(inp.get(k, 0) for k in ("tscale", "gscale", "toffset", "goffset"))
+        return inp, sig, nd, mask_kind
+
+    n = ctx.budget(126, 1200)
+    for i in range(n):
+        inp, sig, nd, mask_kind = draw(rng, i)
         _evaluate(ctx, d, inp)
-        ctx.count("target-scale:%g" % inp.get("tscale", 1.0))
         ctx.distinct(sig)
-        ctx.count(f"score:{score}")
-        ctx.count(f"ndim:{nd}")
-        ctx.count("pad:" + ("on" if pad else "off"))
-        ctx.count("precision:" + ("f64" if double else "f32"))
-        ctx.count("parity:" + "".join("e" if x % 2 == 0 else "o" for x in inp["ms"]) + "/" + "".join("e" if x % 2 == 0 else "o" for x in inp["ns"]))
-        ctx.count("rotation:" + ("identity" if inp["perm"] == list(range(nd)) and not any(inp["flip"]) else "grid"))
-        ctx.count("template:" + ("larger-than-target" if any(m > n for m, n in zip(inp["ms"], inp["ns"])) else "fits"))
-        ctx.count("mask:" + mask_kind)
+        _tally(ctx, inp, nd, mask_kind)
         if i < 3:
             ctx.sample({k: v for k, v in inp.items() if k not in ("target", "mask", "targetMask")})
 
+    # ---- extents with a non-fast FFT length (conv shape != fast shape also without padding), long template axes (5, 7, 9)
+    rng2 = ctx.rng("profiles")
+    for i in range(ctx.budget(42, 252)):
+        profile = ("nonfast", "long", "nonfast")[i % 3]
+        inp, sig, nd, mask_kind = draw(rng2, i, profile)
+        _evaluate(ctx, d, inp)
+        ctx.distinct(sig + (profile,))
+        _tally(ctx, inp, nd, mask_kind)
+        ctx.count("shape-profile:" + profile)
+        ctx.count("fast-shape:" + ("== conv" if S_fast_equals_conv(inp) else "> conv"))
+
+    # ---- several rotations in one search, each rotation's array observed through a user-supplied callback_class
+    rng3 = ctx.rng("per-rotation")
+    for i in range(ctx.budget(21, 105)):
+        inp, sig, nd, mask_kind = draw(rng3, i, fastest="score")
+        rots = [r for r in S.grid_rotations(nd) if S.rot_ok_for_shape(r[0], inp["ms"])]
+        k = int(rng3.integers(1, 4))
+        inp["rots"] = [[rots[j][0], rots[j][1]] for j in rng3.integers(0, len(rots), size=k)]
+        inp["rot_pos"] = int(rng3.integers(0, k + 1))
+        inp["api"]["callback"] = "per-rotation"
+        _evaluate(ctx, d, inp)
+        ctx.distinct(sig + ("per-rotation", k))
+        _tally(ctx, inp, nd, mask_kind)
+        ctx.count("search:%d-rotations-one-loop" % (k + 1))
+
+    # ---- consecutive searches that share every shape but not the contents (anything remembered per shape shows up here)
+    rng4 = ctx.rng("same-shape")
+    for i in range(ctx.budget(14, 70)):
+        inp, sig, nd, mask_kind = draw(rng4, i, fastest="score")
+        _evaluate(ctx, d, inp)
+        past = [{k: v for k, v in inp.items() if k not in ("rots", "rot_pos")}]
+        for j in range(2):
+            sib, _ = _case(ctx, d, rng4, nd, inp["score"], inp["pad"], inp["double"], inp["order"], mask_kind, quick,
+                           shapes=(inp["ns"], inp["ms"]))
+            for kk in ("tscale", "gscale"):
+                if kk in inp:
+                    sib[kk] = inp[kk]
+            sib["api"] = dict(inp["api"]) if j == 0 else {}      # once the same way, once through the plain call
+            sib["before"] = list(past)       # (already executed here; a replay of the case runs them first)
+            _evaluate(ctx, d, sib, history=False)
+            past.append({k: v for k, v in sib.items() if k != "before"})
+            ctx.count("session:same-shapes-new-contents")
+        ctx.distinct(sig + ("same-shape",))
 
     # ---- sessions: consecutive searches with different templates of one shape, rotations spread over two (reused) workers
     for i in range(ctx.budget(4, 30)):
@@ -331,9 +774,18 @@ def run(ctx):
         if pre.std() == 0:
             pre.flat[0] += 1
         inp["prelude"] = pre.reshape(-1).tolist()
+        if i % 4 == 3:
+            inp["n_jobs"] = 3      # more jobs than rotations
         _evaluate(ctx, d, inp)
         ctx.distinct(sig + ("session",))
         ctx.count("session:two-searches-two-workers")
+
+
+def S_fast_equals_conv(inp):
+    from tme.backends import backend as be
+    ns, ms, pad = inp["ns"], inp["ms"], inp["pad"]
+    conv, fast, _ = be.compute_convolution_shapes([max(n, m) for n, m in zip(ns, ms)], ms if pad else [1] * len(ms))
+    return list(conv) == list(fast)
 
 
 def search(ctx):
@@ -343,7 +795,10 @@ def search(ctx):
     for i in range(150):
         score = S.SCORES[i % 7]
         nd = 2 if i % 3 else 3
-        inp, _ = _case(ctx, d, rng, nd, score, bool(i % 2), False, 3, "full", True)
+        profile = ("std", "std", "nonfast", "long")[(i // 7) % 4]
+        inp, _ = _case(ctx, d, rng, nd, score, bool(i % 2), False, 3, "full", True, profile)
+        if i % 5 == 4:
+            inp["api"] = _api(rng, inp)
         _evaluate(ctx, d, inp)
 
 
